@@ -52,3 +52,19 @@ package querystring
 //@   requires v != nil
 //@   modifies v.err
 //@   ensures[reset-forgets-everything] v.err != nil && len(v.err.errs) == 0 && merrIdle(v.err)
+
+// C12 (filter condition): the matcher holds exactly when the URL has the parameter and - if a value is configured - ANY
+// of the parameter's values equals it (a repeated parameter is matched on every value, not only the first).
+//@ ghost var qmQ url.Values
+//@ extern func (*net/url.URL).Query
+//@   modifies qmQ
+//@   ensures result != nil && qmQ == result
+//@ func (*Matcher).MatchRequest
+//@   serves C12
+//@   requires m != nil && req != nil && req.URL != nil
+//@   modifies qmQ
+//@   ensures[matches-on-any-value-of-the-parameter] result == (has(qmQ, m.name) && (m.value == "" || (exists i int :: 0 <= i && i < len(qmQ[m.name]) && qmQ[m.name][i] == m.value)))
+//@   loop map 0 invariant forall k string :: visited(k) ==> k != m.name || (m.value != "" && (forall i int :: 0 <= i && i < len(qmQ[k]) ==> qmQ[k][i] != m.value))
+//@   loop slice 0 invariant n == m.name && m.value != "" && has(qmQ, n) && vs == qmQ[n] && -1 <= rangeindex && rangeindex < len(vs)
+//@   loop slice 0 invariant forall i int :: 0 <= i && i <= rangeindex ==> vs[i] != m.value
+//@   loop slice 0 invariant forall k string :: k != n && visited(k) ==> k != m.name || (m.value != "" && (forall i int :: 0 <= i && i < len(qmQ[k]) ==> qmQ[k][i] != m.value))
